@@ -73,20 +73,28 @@ def _work(job):
             r = verify_function(name, sch, contracts, specfuncs, config)
         out.update(status=r.status, message=r.message, sha=r.sha, paths=r.paths, loops=[list(x) for x in r.loops],
                    assumed=list(r.assumed), notes=list(r.notes), file=r.file, lineno=r.lineno)
-        cache = {}
-        for ob in getattr(r, "raw", []):
-            key = _vc_key(ob)
-            if key in cache:
-                st, be, dt, mtxt = cache[key]
+        raw = list(getattr(r, "raw", []))
+        keys = [_vc_key(ob) for ob in raw]
+        uniq = {}
+        for i, k in enumerate(keys):
+            uniq.setdefault(k, i)
+        todo = sorted(uniq.values())
+        global _RAW
+        _RAW = (raw, timeout_ms)
+        inner = int(os.environ.get("VERIF_INNER_PROCS", "1"))
+        if len(todo) > 24 and inner > 1:
+            import multiprocessing as mp2
+            with mp2.get_context("fork").Pool(inner) as pool:
+                solved = pool.map(_solve_idx, todo, chunksize=1)
+        else:
+            solved = [_solve_idx(i) for i in todo]
+        cache = {keys[i]: sres for i, sres in zip(todo, solved)}
+        for i, ob in enumerate(raw):
+            st, be, dt, mtxt = cache[keys[i]]
+            if uniq[keys[i]] != i:
                 dt = 0.0
-            else:
-                st, be, dt, m = solve_obligation(ob, timeout_ms=timeout_ms)
-                mtxt = None
-                if st == "refuted":
-                    mtxt = model_text(m, ob)
-                cache[key] = (st, be, dt, mtxt)
             out["obligations"].append({"name": ob.name, "kind": ob.kind, "status": st, "backend": be, "time_s": round(dt, 4),
-                                       "where": ob.where, "text": ob.meta.get("text", ""), "model": mtxt, "vc": key[:12],
+                                       "where": ob.where, "text": ob.meta.get("text", ""), "model": mtxt, "vc": keys[i][:12],
                                        "smt": (ob.goal.sexpr()[:600] if len(out["obligations"]) < 2 else None)})
     except Exception as e:
         out["status"] = "crash"
@@ -106,6 +114,18 @@ def _work(job):
                 n, budget = max(n, 300), max(budget, 60)
             out["native"] = run_native(name, n=n, seed=int(os.environ.get("VERIF_SEED", "0") or 0), budget_s=budget)
     return out
+
+
+_RAW = None
+
+
+def _solve_idx(i):
+    from .verify import solve_obligation
+    raw, timeout_ms = _RAW
+    ob = raw[i]
+    st, be, dt, m = solve_obligation(ob, timeout_ms=timeout_ms)
+    mtxt = model_text(m, ob) if st == "refuted" else None
+    return st, be, dt, mtxt
 
 
 def model_text(m, ob):
@@ -148,9 +168,11 @@ def run_property(pid, tier="quick", seed=0, update_ledger=False, verbose=False):
         jobs += [("function", q, 30000) for q in p.get("thorough_functions", [])]
     os.environ["VERIF_TIER_EFFECTIVE"] = tier
     nproc = min(16, max(1, len(jobs)))
+    os.environ["VERIF_INNER_PROCS"] = str(max(1, min(8, 16 // max(1, min(len(jobs), 4)))))
     if len(jobs) > 1:
-        with mp.Pool(nproc, initializer=_init) as pool:
-            results = pool.map(_work, jobs, chunksize=1)
+        from concurrent.futures import ProcessPoolExecutor
+        with ProcessPoolExecutor(max_workers=nproc, initializer=_init) as pool:
+            results = list(pool.map(_work, jobs))
     else:
         _init()
         results = [_work(j) for j in jobs]
